@@ -97,13 +97,15 @@ def _support(job):
     for name, m, lo, hi in (
             ('UniformUnivariate', U.UniformUnivariate(), None, None), ('BetaUnivariate', U.BetaUnivariate(), None, None),
             ('TruncatedGaussian', U.TruncatedGaussian(), None, None),
-            ('TruncatedGaussian(bounds)', U.TruncatedGaussian(minimum=float(X.min()) - 2.5, maximum=float(X.max()) + 0.5), float(X.min()) - 2.5, float(X.max()) + 0.5)):
+            ('TruncatedGaussian(bounds)', U.TruncatedGaussian(minimum=float(X.min()) - 2.5, maximum=float(X.max()) + 0.5), float(X.min()) - 2.5, float(X.max()) + 0.5),
+            ('TruncatedGaussian(minimum)', U.TruncatedGaussian(minimum=float(X.min()) - 2.5), float(X.min()) - 2.5, None),
+            ('TruncatedGaussian(maximum)', U.TruncatedGaussian(maximum=float(X.max()) + 1.5), None, float(X.max()) + 1.5)):
         try:
             m.fit(X.copy())
         except Exception:
             continue
         ends = np.asarray(m.percent_point(np.array([0.0, 1.0])), dtype=float)
-        if lo is not None and (abs(ends[0] - lo) > 1e-9 * (1 + abs(lo)) or abs(ends[1] - hi) > 1e-9 * (1 + abs(hi))):
+        if (lo is not None and abs(ends[0] - lo) > 1e-9 * (1 + abs(lo))) or (hi is not None and abs(ends[1] - hi) > 1e-9 * (1 + abs(hi))):
             probs.append((name, 'user-supplied-bounds-not-honoured', 'support %r vs bounds (%r, %r)' % (ends.tolist(), lo, hi)))
         if not np.isfinite(ends).all():
             probs.append((name, 'bounded-family-has-unbounded-support', repr(ends.tolist())))
@@ -156,6 +158,7 @@ def _kde(job):
     else:
         if len(data) != n or not np.array_equal(np.sort(data), np.sort(X)):
             probs.append(('training-data-not-kept', ''))
+        data = X.copy()          # the estimate is defined on the training data in the order given (weights are positional)
         ww = w
     nn = len(data)
     wn = np.full(nn, 1.0 / nn) if ww is None else ww / ww.sum()
